@@ -5,7 +5,7 @@ with modelx (no exec, no FunctionType, no ChainMap, no networkx).
 
 Formula dict:
   {"style": "def"|"lambda", "params": [[name, default|None], ...],
-   "lets": [[var, expr] | ["try", var, expr, handler]], "ret": expr, "doc": str|None, "rfilter": bool}
+   "lets": [[var, expr] | ["try", var, expr, handler] | ["guard", var, expr, side, "reraise"|"finally"]], "ret": expr, "doc": str|None, "rfilter": bool}
 Param-formula dict (spaces):
   {"params": [[name, default|None], ...], "ret": None | {"refs": {name: expr}} | {"base": path}, "probe": bool,
    "pre": expr|None}
@@ -110,6 +110,18 @@ def render(name, f):
             lines.append("        %s = %s" % (var, r_expr(e)))
             lines.append("    except Exception:")
             lines.append("        %s = %s" % (var, r_expr(h)))
+        elif let[0] == "guard":
+            # a clean-up that itself fails and handles its failure while the first exception is on its way out
+            _, var, e, side, mode = let
+            lines.append("    try:")
+            lines.append("        %s = %s" % (var, r_expr(e)))
+            lines.append("    except Exception:" if mode == "reraise" else "    finally:")
+            lines.append("        try:")
+            lines.append("            %s" % r_expr(side))
+            lines.append("        except Exception:")
+            lines.append("            pass")
+            if mode == "reraise":
+                lines.append("        raise")
         else:
             var, e = let
             lines.append("    %s = %s" % (var, r_expr(e)))
@@ -147,6 +159,10 @@ def line_map(name, f):
             out["let"][i] = ln + 2
             out["let_handler_%d" % i] = ln + 4
             ln += 4
+        elif let[0] == "guard":
+            out["let"][i] = ln + 2
+            out["let_handler_%d" % i] = ln + 5
+            ln += 8 if let[4] == "reraise" else 7
         else:
             ln += 1
             out["let"][i] = ln
@@ -392,7 +408,9 @@ class Evaluator:
         if self.plan is not None:
             exc = self.plan.check(site)
             if exc:
-                raise EvalRaise(exc, "injected", catchable=exc not in ("KeyboardInterrupt",))
+                ex = EvalRaise(exc, "injected", catchable=exc not in ("KeyboardInterrupt",))
+                ex.fired_index = len(self.plan.fired) - 1       # which of the injected objects this one is
+                raise ex
 
     # ---- element evaluation ----------------------------------------------
     def bind(self, params, args, kwargs=None):
@@ -519,6 +537,29 @@ class Evaluator:
                     self.handled += 1
                     self.lines[-1] = lm["let_handler_%d" % i]
                     env[var] = self.ev(inst, h, env)
+            elif let[0] == "guard":
+                _, var, e, side, mode = let
+
+                def cleanup():
+                    self.lines[-1] = lm["let_handler_%d" % i]
+                    try:
+                        self.ev(inst, side, env)
+                    except EvalRaise as ex2:
+                        if not ex2.catchable:
+                            raise           # replaces whatever was on its way out
+                        self.handled += 1
+                        self.guarded = getattr(self, "guarded", 0) + 1
+                try:
+                    env[var] = self.ev(inst, e, env)
+                except EvalRaise as ex:
+                    if getattr(ex, "stack", None) is None:
+                        ex.stack = self.snapshot()      # raised in this frame, on the line of the assignment
+                    if mode == "finally" or ex.catchable:
+                        cleanup()
+                    raise
+                if mode == "finally":
+                    cleanup()
+                    self.lines[-1] = lm["let"][i]
             else:
                 var, e = let
                 env[var] = self.ev(inst, e, env)
